@@ -1,18 +1,18 @@
 /-
   C05 — Matrix multiplication computes the batched, optionally transposed product.
+
+  For well-formed operands of rank ≥ 2, for all leading (batch) dimensions, matrix sizes and both
+  transpose flags, `matmul` = the specification `specMatmul` (dimensions and every entry), without
+  additive term (`C05_product`), with a bias row (`C05_bias`, the dense layer's call) and with a matrix
+  additive term broadcast over batches / rows (`C05_addterm`); mismatching inner dimensions and
+  incompatible batch dimensions are refused (`C05_refuses_inner`, `C05_refuses_leading`).
 -/
-import CorgiProofs.Broadcast
-import CorgiProofs.Lists
+import CorgiProofs.Matmul
 
 set_option linter.unusedSectionVars false
 
 namespace Corgi
 variable {S : Type} [Add S] [Mul S] [Neg S] [Sub S] [ScalarOps S]
-
-theorem dimFromEnd_append2_1 (l : List Nat) (p q : Nat) : dimFromEnd (l ++ [p, q]) 1 = .ok q := by
-  simp [dimFromEnd, getR, pure, Except.pure]
-theorem dimFromEnd_append2_2 (l : List Nat) (p q : Nat) : dimFromEnd (l ++ [p, q]) 2 = .ok p := by
-  simp [dimFromEnd, getR, pure, Except.pure]
 
 /-- One entry of the per-batch product is the initial value (the additive term) plus the sum over
     the inner index of the transposed-indexed products — by definition of the triple loop. -/
@@ -28,9 +28,72 @@ theorem C05_entry (rows cols sumLen : Nat) (a b : List S) (ta tb : Bool) (init :
     obtain ⟨x, y, hx, hy, ht⟩ := h k hk
     simp [getR, hx, hy, ht, bind, Except.bind, pure, Except.pure]
 
-/-! non-vacuity -/
+/-- **The product.**  `a : la ++ [a1, a2]`, `b : lb ++ [b1, b2]` well-formed, `la`/`lb` broadcast
+    compatible, inner dimensions (after the flags) equal: the result is the specification —
+    dimensions `bdims la lb ++ [rows, cols]`, entry `[L.., r, j] = Σ_t a[L↓.., r, t] · b[L↓.., t, j]`
+    with the flagged operand's last two indices swapped and `L↓` the batch index projected onto the
+    operand (index 0 along its unit dimensions, surplus leading positions dropped). -/
+theorem C05_product (a b : Tensor S) (ta tb : Bool) (la lb : List Nat) (a1 a2 b1 b2 : Nat)
+    (hda : a.dims = la ++ [a1, a2]) (hdb : b.dims = lb ++ [b1, b2]) (hwa : a.WF) (hwb : b.WF)
+    (hc : Compat la lb = true) (hinner : (if ta then a1 else a2) = (if tb then b2 else b1)) :
+    matmul a ta b tb none = .ok (specMatmul a ta b tb none) :=
+  matmul_spec_none a b ta tb la lb a1 a2 b1 b2 hda hdb hwa hwb hc hinner
+
+/-- **With a bias row**: a rank-1 additive term with one value per output column is added to every
+    row of every batch (the call a dense layer makes). -/
+theorem C05_bias (a b c : Tensor S) (ta tb : Bool) (la lb : List Nat) (a1 a2 b1 b2 : Nat)
+    (hda : a.dims = la ++ [a1, a2]) (hdb : b.dims = lb ++ [b1, b2]) (hwa : a.WF) (hwb : b.WF)
+    (hc : Compat la lb = true) (hinner : (if ta then a1 else a2) = (if tb then b2 else b1))
+    (hdc : c.dims = [if tb then b1 else b2]) (hwc : c.WF) :
+    matmul a ta b tb (some c) = .ok (specMatmul a ta b tb (some c)) :=
+  matmul_spec_bias a b c ta tb la lb a1 a2 b1 b2 hda hdb hwa hwb hc hinner hdc hwc
+
+/-- **With a matrix additive term** of dimensions `cl ++ [c1, cols]`, `c1 ∈ {1, rows}`, `cl` fitting
+    the batch dimensions: broadcast over batches and, when `c1 = 1`, over rows. -/
+theorem C05_addterm (a b c : Tensor S) (ta tb : Bool) (la lb cl : List Nat) (a1 a2 b1 b2 c1 : Nat)
+    (hda : a.dims = la ++ [a1, a2]) (hdb : b.dims = lb ++ [b1, b2]) (hwa : a.WF) (hwb : b.WF)
+    (hc : Compat la lb = true) (hinner : (if ta then a1 else a2) = (if tb then b2 else b1))
+    (hdc : c.dims = cl ++ [c1, if tb then b1 else b2]) (hwc : c.WF)
+    (hc1 : c1 = 1 ∨ c1 = (if ta then a2 else a1)) (hfc : Fits cl (bdims la lb) = true) :
+    matmul a ta b tb (some c) = .ok (specMatmul a ta b tb (some c)) :=
+  matmul_spec_addterm a b c ta tb la lb cl a1 a2 b1 b2 c1 hda hdb hwa hwb hc hinner hdc hwc hc1 hfc
+
+/-- the result's dimensions, read off the specification -/
+theorem C05_shape (a b : Tensor S) (ta tb : Bool) (c : Option (Tensor S)) (la lb : List Nat) (a1 a2 b1 b2 : Nat)
+    (hda : a.dims = la ++ [a1, a2]) (hdb : b.dims = lb ++ [b1, b2]) :
+    (specMatmul a ta b tb c).dims = bdims la lb ++ [if ta then a2 else a1, if tb then b1 else b2] := by
+  simp only [specMatmul, Tensor.ofFn, hda, hdb]
+  have e1 : (la ++ [a1, a2]).take ((la ++ [a1, a2]).length - 2) = la := by simp
+  have e2 : (lb ++ [b1, b2]).take ((lb ++ [b1, b2]).length - 2) = lb := by simp
+  have e3 : (la ++ [a1, a2]).drop ((la ++ [a1, a2]).length - 2) = [a1, a2] := by simp
+  have e4 : (lb ++ [b1, b2]).drop ((lb ++ [b1, b2]).length - 2) = [b1, b2] := by simp
+  simp only [e1, e2, e3, e4, List.getD_cons_zero, List.getD_cons_succ]
+
+/-- mismatching inner dimensions are refused (never a value) -/
+theorem C05_refuses_inner (a b : Tensor S) (ta tb : Bool) (c : Option (Tensor S)) (la lb : List Nat) (a1 a2 b1 b2 : Nat)
+    (hda : a.dims = la ++ [a1, a2]) (hdb : b.dims = lb ++ [b1, b2])
+    (hinner : (if ta then a1 else a2) ≠ (if tb then b2 else b1)) :
+    ∃ p, matmul a ta b tb c = .error p :=
+  matmul_refuses_inner a b ta tb c la lb a1 a2 b1 b2 hda hdb hinner
+
+/-- incompatible batch dimensions are refused -/
+theorem C05_refuses_leading (a b : Tensor S) (ta tb : Bool) (c : Option (Tensor S)) (la lb : List Nat) (a1 a2 b1 b2 : Nat)
+    (hda : a.dims = la ++ [a1, a2]) (hdb : b.dims = lb ++ [b1, b2]) (hc : Compat la lb = false) :
+    matmul a ta b tb c = .error .incompatible :=
+  matmul_refuses_leading a b ta tb c la lb a1 a2 b1 b2 hda hdb hc
+
+/-! non-vacuity: a batched, transposed instance meets every hypothesis of `C05_product` / `C05_bias` -/
 example : Compat [1, 2] [2, 1] = true ∧ bdims [1, 2] [2, 1] = [2, 2] := by decide
+example : (⟨[2, 1, 2, 3], List.replicate 12 (1 : Int)⟩ : Tensor Int).WF := by
+  refine ⟨by decide, by decide⟩
+example : (if true then 2 else 3) = (if false then 5 else 2) := by decide
 
 end Corgi
 
 #print axioms Corgi.C05_entry
+#print axioms Corgi.C05_product
+#print axioms Corgi.C05_bias
+#print axioms Corgi.C05_addterm
+#print axioms Corgi.C05_shape
+#print axioms Corgi.C05_refuses_inner
+#print axioms Corgi.C05_refuses_leading
